@@ -364,4 +364,12 @@ def c14_e(ctx: Ctx):
     return out
 
 
-RULES = [c14_a, c14_b, c14_c, c14_d, c14_e]
+@rule("C14-f")
+def c14_f(ctx: Ctx):
+    """doc_sync=None selects the default key-by-key merge; DocSync.NO_SYNC is False and must stay 'do not synchronise'."""
+    from .lints import sentinel_discipline
+    return sentinel_discipline(ctx, "C14-f", [("signac.sync:sync_jobs", "doc_sync", "DocSync.NO_SYNC is the value False: a truthiness test turns 'do not synchronise documents' into the default ByKey merge, which overwrites / raises on document keys"),
+     ("signac.sync:sync_projects", "doc_sync", "DocSync.NO_SYNC is the value False: a truthiness test turns 'do not synchronise documents' into the default ByKey merge")])
+
+
+RULES = [c14_a, c14_b, c14_c, c14_d, c14_e, c14_f]
